@@ -206,10 +206,12 @@ def consumer_scenario(rnd, script, group=True, gaps=False):
         return d
 
     c = Consumer(client, 't', 0, processor, consumer_group='g' if group else None,
-                 auto_commit_every_n=rnd.choice([1, 2, 0]) if group else None, auto_commit_every_ms=0 if group else None,
+                 auto_commit_every_n=rnd.choice([1, 2, 0]) if group else None,
+                 auto_commit_every_ms=rnd.choice([0, 0, 1000]) if group else None,     # sometimes a time-triggered auto-commit too
                  request_retry_init_delay=0.5, request_retry_max_delay=2.0)
     client.consumer = c
     start_results = []
+    commit_waits = []            # Deferreds returned by commit(): none may be left pending by stop()
     start_offset = 0
     sd = c.start(start_offset)
     sd.addBoth(start_results.append)
@@ -228,6 +230,8 @@ def consumer_scenario(rnd, script, group=True, gaps=False):
         if state['stopped_at'] is not None:
             if clock.getDelayedCalls():
                 raise Hit('C13:timer-left-after-stop', [str(dc) for dc in clock.getDelayedCalls()])
+            if c._start_d is None and any(not d_.called for d_ in commit_waits):
+                raise Hit('C13:commit-waiter-left-pending-by-stop', len([1 for d_ in commit_waits if not d_.called]))
 
     for step in range(rnd.choice([4, 6, 8, 10, 12])):
         choices = ['advance']
@@ -284,7 +288,9 @@ def consumer_scenario(rnd, script, group=True, gaps=False):
                     state['failed'] = True
                     d.errback(Failure(RuntimeError('processor failed')))
             elif ev == 'commit':
-                c.commit().addErrback(lambda f: None)
+                cd = c.commit()
+                cd.addErrback(lambda f: None)
+                commit_waits.append(cd)
             elif ev == 'restart':
                 # a new run of the same consumer object: everything of the earlier run was cancelled by stop()
                 state['restarted'] = True
@@ -1158,6 +1164,8 @@ def scenario_group(rnd, n):
         client._get_coordinator_for_group.side_effect = coord
         client.load_metadata_for_topics.side_effect = lambda *t: (defer.fail(KafkaUnavailableError('x')) if r.random() < 0.2 else defer.succeed(True))
         load_fail = [False]
+        slow_lookup = [r.random() < 0.4]
+        lookups = []
 
         def ltp(*t):
             # transient metadata failure at the leader's partition lookup: the rebalance is abandoned between the two
@@ -1165,6 +1173,11 @@ def scenario_group(rnd, n):
             if load_fail[0]:
                 load_fail[0] = False
                 return defer.fail(Failure(KafkaUnavailableError('partition lookup failed')))
+            if slow_lookup[0]:
+                # the lookup takes a while (event partition_lookup_done): stop() and everything else may happen meanwhile
+                d_ = defer.Deferred()
+                lookups.append(d_)
+                return d_
             return defer.succeed({'t': list(parts)})
         client._load_topic_partitions.side_effect = ltp
         client.topic_partitions = {'t': parts}
@@ -1211,6 +1224,8 @@ def scenario_group(rnd, n):
                     opts += ['consumer_error']
                 if RecConsumer.shutting:
                     opts += ['consumer_shutdown_done', 'consumer_shutdown_done']
+                if lookups:
+                    opts += ['partition_lookup_done', 'partition_lookup_done']
                 if not state['stopping'] and r.random() < 0.15:
                     opts += ['next_consumer_fails_at_start']
                 if not state['stopping'] and r.random() < 0.2:
@@ -1258,6 +1273,10 @@ def scenario_group(rnd, n):
                         members[:] = r.choice([['me'], ['m2', 'me'], ['me', 'm2', 'm3'], ['m3', 'me']])
                     elif ev == 'partition_lookup_fails_next':
                         load_fail[0] = True
+                    elif ev == 'partition_lookup_done':
+                        d_ = lookups.pop(0)
+                        if not d_.called:
+                            d_.callback({'t': list(parts)})
                     elif ev == 'consumer_shutdown_done':
                         cns, d = RecConsumer.shutting.pop(0)
                         cns.stop()
